@@ -553,6 +553,68 @@ enum Item {
     Huff(usize),
 }
 
+/// long symbol-code words through both coders: codebooks whose codewords are longer than a word, than 64 and
+/// than 128 bits (Fibonacci / geometric weights), every symbol encoded into a stack and a queue over u8, u32
+/// and u64 words and decoded back — in reverse order from the stack, in order from the queue
+fn long_codewords(report: &Report) {
+    let mut bad: Bad = vec![];
+    let mut n = 0u64;
+    let mut longest = 0usize;
+    let books: Vec<(String, EncoderHuffmanTree, DecoderHuffmanTree, usize)> = {
+        let fib: Vec<u64> = { let mut v = vec![1u64, 1]; while v.len() < 90 { let k = v.len(); v.push(v[k - 1] + v[k - 2]); } v };
+        let geo: Vec<u128> = (0..120).map(|i| 1u128 << i).collect();
+        let fl: Vec<f64> = (0..200).map(|i| (2.0f64).powi(i - 60)).collect();
+        vec![
+            ("90 Fibonacci weights (u64)".into(), EncoderHuffmanTree::from_probabilities::<u64, _>(&fib), DecoderHuffmanTree::from_probabilities::<u64, _>(&fib), 90),
+            ("120 weights 2^i (u128)".into(), EncoderHuffmanTree::from_probabilities::<u128, _>(&geo), DecoderHuffmanTree::from_probabilities::<u128, _>(&geo), 120),
+            ("200 weights 2^(i-60) (f64)".into(), EncoderHuffmanTree::from_float_probabilities::<f64, _>(&fl).unwrap(), DecoderHuffmanTree::from_float_probabilities::<f64, _>(&fl).unwrap(), 200),
+        ]
+    };
+    macro_rules! go {
+        ($W:ty) => {{
+            for (name, enc, dec, nsym) in &books {
+                let wn = stringify!($W);
+                // all symbols in one stream, deepest leaves first and last
+                let order: Vec<usize> = (0..*nsym).chain((0..*nsym).rev().step_by(7)).collect();
+                let mut st = StackCoder::<$W>::new();
+                let mut qe = QueueEncoder::<$W>::new();
+                let mut bits = 0usize;
+                for &s in &order {
+                    let b0 = st.len();
+                    if st.encode_symbol(s, enc).is_err() || qe.encode_symbol(s, enc).is_err() {
+                        bad.push((format!("{wn} | symbol of the codebook refused"), format!("{name}: symbol {s}")));
+                    }
+                    longest = longest.max(st.len() - b0);
+                    bits += st.len() - b0;
+                    n += 2;
+                }
+                if st.len() != bits || qe.len() != bits {
+                    bad.push((format!("StackCoder/QueueEncoder::len | {wn} | reported bit length is not exact"), format!("{name}: stack {} queue {} written {bits}", st.len(), qe.len())));
+                }
+                let back: Vec<Option<usize>> = order.iter().rev().map(|_| st.decode_symbol(dec).ok()).collect();
+                if back != order.iter().rev().map(|&s| Some(s)).collect::<Vec<_>>() || !st.is_empty() {
+                    let k = back.iter().zip(order.iter().rev()).position(|(a, b)| *a != Some(*b));
+                    bad.push((format!("StackCoder | {wn} | long symbol-code words do not come back in reverse order"), format!("{name}: first difference at read #{:?}", k)));
+                }
+                let mut qd = qe.into_decoder().unwrap_infallible();
+                let fwd: Vec<Option<usize>> = order.iter().map(|_| qd.decode_symbol(dec).ok()).collect();
+                if fwd != order.iter().map(|&s| Some(s)).collect::<Vec<_>>() {
+                    let k = fwd.iter().zip(order.iter()).position(|(a, b)| *a != Some(*b));
+                    bad.push((format!("QueueEncoder | {wn} | long symbol-code words do not come back in order"), format!("{name}: first difference at read #{:?}", k)));
+                }
+            }
+        }};
+    }
+    go!(u8);
+    go!(u32);
+    go!(u64);
+    report.count("long_codeword_symbols_through_bit_coders", n);
+    report.count("longest_codeword_bits_through_bit_coders", longest as u64);
+    report.add_transitions(n);
+    if longest < 150 && bad.is_empty() { panic!("HARNESS: the long-codeword books must exceed 150 bits, got {longest}"); }
+    for (i, d) in bad { report.violation(Violation { identity: i, detail: d, case: json!({"kind": "none"}) }); }
+}
+
 fn mixed_sequences(report: &Report, depth: usize) {
     let items = [Item::Bit(false), Item::Bit(true), Item::Eg(0), Item::Eg(4), Item::Eg(255), Item::Huff(0), Item::Huff(2)];
     let henc = EncoderHuffmanTree::from_probabilities::<u32, _>(&[3u32, 1, 2]);
@@ -653,6 +715,7 @@ pub fn run(report: &Report) {
     eg_checks!(report, u64, b64.clone(), u32, "boundary values 2^k-2..2^k, MAX");
     eg_checks!(report, u64, b64, u16, "boundary values 2^k-2..2^k, MAX");
     mixed_sequences(report, if q { 5 } else { 7 });
+    long_codewords(report);
 }
 
 /// The bit-coder part of C08 (inspection never changes the output): same BFS / enumeration,
